@@ -341,8 +341,11 @@ class SymExec:
                 if alts is None:
                     alts = self.default_call(cal, args, site, transparent, t)
                 st.calls = st.calls + ((cal, args, bb),)
-                for ai, (extra, val, div) in enumerate(alts):
+                for ai, alt in enumerate(alts):
+                    extra, val, div = alt[0], alt[1], alt[2]
                     s2 = st if ai == len(alts) - 1 else st.fork()
+                    if len(alt) > 3 and alt[3]:
+                        s2.calls = s2.calls + tuple(alt[3])      # calls made inside an inlined callee, in order
                     ok = True
                     for c in extra:
                         if not self.consistent(s2, c):
@@ -444,7 +447,7 @@ class SymExec:
             alts = []
             for p in sub.paths(env):
                 div = "__diverged__" in p.env or "__cut__" in p.env
-                alts.append((p.conds, p.env.get(0, ("?", "ret")), div))
+                alts.append((p.conds, p.env.get(0, ("?", "ret")), div, p.calls))
             if sub.truncated:
                 self.truncated = True
             return alts
